@@ -1019,10 +1019,6 @@ impl<S: Service> World<S> {
     pub fn held_keys(&self) -> Vec<(u64, u64)> {
         self.cs.held.iter().map(|(h, r)| (*h, r.c)).collect()
     }
-    /// (handle, client, server the response came from)
-    pub fn held_from(&self) -> Vec<(u64, u64, u64)> {
-        self.cs.held.iter().map(|(h, r)| (*h, r.c, r.seen.s)).collect()
-    }
     pub fn areq_keys(&self) -> Vec<(u64, u64, u64)> {
         self.ss.areq.keys().copied().collect()
     }
